@@ -291,14 +291,11 @@ def dqFixup (q dp dp0 lowN : List Nat) (qh x y : Nat) : DqRes :=
         else some (dqTail q dp0 qh sft mem x)                       -- :283-296
     else some (q, qh)
 
-/-- mpn_sb_div_q (qp, np, nn, dp, dn, dinv): dn > 2, nn ≥ dn, dp normalised, dinv = mpir_invert_pi1 (dp[dn-1], dp[dn-2]).
-    Returns the nn-dn quotient limbs and qh (`none`: an ASSERT_ALWAYS of the C would fire).
-    For nn = dn the divisor is cut to its top limb, every loop is skipped and only the fix-up decides qh. -/
-def sb_div_q (np dp0 : List Nat) (dinv : Nat) : DqRes :=
+/-- mpn_sb_div_q after the cut of the divisor (sb_div_q.c:66-298): `dp` = the divisor limbs used by the loops
+    (min (dn, qn+1) of them), `dp0` = the whole divisor, `qn0` = nn - dn of the call. -/
+def dqCore (np dp dp0 : List Nat) (qn0 dinv : Nat) : DqRes :=
   let nn := np.length
   let dn0 := dp0.length
-  let qn0 := nn - dn0                                                -- :59
-  let dp := if qn0 + 1 < dn0 then dp0.drop (dn0 - (qn0 + 1)) else dp0   -- :60-64
   let dn := dp.length
   let hi := np.drop (nn - dn)
   let qh := if cmp hi dp ≥ 0 then 1 else 0                           -- :66
@@ -314,5 +311,15 @@ def sb_div_q (np dp0 : List Nat) (dinv : Nat) : DqRes :=
   if n1 < andFlag dn0 sB.2.2.2 then                                  -- :202
     dqFixup sB.1 dp dp0 (np.take (dn0 - 2)) qh n1 (sB.2.1.getD 0 0)
   else some (sB.1, qh)
+
+/-- mpn_sb_div_q (qp, np, nn, dp, dn, dinv): dn > 2, nn ≥ dn, dp normalised, dinv = mpir_invert_pi1 (dp[dn-1], dp[dn-2]).
+    Returns the nn-dn quotient limbs and qh (`none`: an ASSERT_ALWAYS of the C would fire).
+    For nn = dn the divisor is cut to its top limb, every loop is skipped and only the fix-up decides qh. -/
+def sb_div_q (np dp0 : List Nat) (dinv : Nat) : DqRes :=
+  let nn := np.length
+  let dn0 := dp0.length
+  let qn0 := nn - dn0                                                -- :59
+  let dp := if qn0 + 1 < dn0 then dp0.drop (dn0 - (qn0 + 1)) else dp0   -- :60-64
+  dqCore np dp dp0 qn0 dinv
 
 end Mpir.SbDivQ
